@@ -9,12 +9,15 @@ import GaeaVerif.Model.ShardLayout
                               (which qualified column names get a decorator)
   proxy/plan/plan_insert.go   generateGlobalShardingSQLs
   proxy/plan/plan_select.go   the places where HandleSelectStmt installs
-                              decorators; createSelectFieldFromByItem and
-                              handleExtraFieldList (fields appended for
+                              decorators (handleFieldList with the wildcard
+                              fields, handleComparisonExpr and callees with
+                              rewriteColumnNamesInExpr); createSelectFieldFromByItem
+                              and handleExtraFieldList (fields appended for
                               GROUP BY / ORDER BY columns)
   proxy/plan/plan_update.go, plan_delete.go   the same for UPDATE / DELETE
-  proxy/plan/decorator_table_name.go, decorator_column_name.go   Restore
-                              (in Model/ShardLayout.lean)
+                              (handleUpdateAssignmentList: column and value)
+  proxy/plan/decorator_table_name.go, decorator_column_name.go,
+  decorator_wildcard_field.go   Restore (in Model/ShardLayout.lean)
   proxy/router/rule.go, router.go   layout of a global rule (Model/ShardLayout.lean)
 
   A statement is its *name skeleton*: the table and column names in text
@@ -32,34 +35,74 @@ inductive Pos where
   | tableRef
   /-- column anywhere inside a select field (`handleFieldList`: `ColumnNameRewriteVisitor`) -/
   | selField
-  /-- `t.*` / `db.t.*` in the field list (`WildCardField`: never visited) -/
+  /-- `t.*` / `db.t.*` in the field list (`handleFieldList`:
+      `WildCardFieldDecorator`, looked up and written like a column; before the
+      `fix:` commit 81799b0 the `WildCardField` was never visited) -/
   | selWildcard
   /-- column that is an operand of `= != < <= > >=`, IN or BETWEEN in WHERE / ON
       (`NeedCreateColumnNameExprDecoratorInCondition`, the IN / BETWEEN decorators) -/
   | condOperand
   /-- column below any other root of a condition (LIKE, IS NULL, NOT …): the
-      `default` branch of `handleComparisonExpr` runs the rewrite visitor, whose
-      panic nobody recovers -/
+      `default` branch of `handleComparisonExpr` runs the rewrite visitor; a
+      column it cannot look up is an error (before the `fix:` commit 706cba5 a
+      panic nobody recovered) -/
   | condOther
-  /-- column inside a function call or arithmetic that is compared with a value
-      (`abs(c) = 1`): `handleBinaryOperationExprMathCompare` returns the
-      expression untouched -/
+  /-- a column that is itself a condition (`WHERE flag`, `a = 1 AND flag`): the
+      `default` branch of `handleComparisonExpr` puts the node the visitor returns
+      in its place (before the `fix:` commit 706cba5 the column was looked up, the
+      decorator thrown away) -/
+  | condRoot
+  /-- column inside a function call or arithmetic that is compared (`abs(c) = 1`):
+      `handleBinaryOperationExprMathCompare` runs `rewriteColumnNamesInExpr` on
+      the operand (the rewrite visitor; its panic is returned as an error);
+      before the `fix:` commit 98a59c2 the expression was returned untouched -/
   | condNested
+  /-- column below an operand, not itself a column or a literal, of another
+      binary operator at the root of a condition (arithmetic, XOR, `<=>`):
+      `handleBinaryOperationExprOther` runs `rewriteColumnNamesInExpr` on it
+      (untouched before the `fix:` commit 5569888) -/
+  | condBinopNested
+  /-- column in the value list of `column IN (…)` (`handlePatternInExpr`:
+      `rewriteColumnNamesInExpr`; untouched before the `fix:` commit 159d8de) -/
+  | condInItem
+  /-- column anywhere in `expr IN (…)` whose left side is not a column (same commit) -/
+  | condInNested
+  /-- column in a bound of BETWEEN (`handleBetweenExpr`: `rewriteColumnNamesInExpr`;
+      untouched before the `fix:` commit 4d9baa7) -/
+  | condBetweenBound
+  /-- column in the left side, not itself a column, of BETWEEN (same commit) -/
+  | condBetweenNested
+  /-- column in HAVING (`handleHaving`: the rewrite visitor, its panic recovered) -/
+  | having
   /-- ORDER BY / GROUP BY item (`createSelectFieldFromByItem`,
       `handleUpdateOrderBy`, `handleDeleteOrderBy`) -/
   | byItem
   /-- UPDATE … SET column (`handleUpdateAssignmentList`: looked up, then the
       qualifiers are removed) -/
   | setColumn
-  /-- column in the value of an UPDATE assignment: not visited -/
+  /-- column in the value of an UPDATE assignment
+      (`handleUpdateAssignmentList`: `rewriteColumnNamesInExpr`; not visited
+      before the `fix:` commit 5e2a917) -/
   | setValue
   /-- column list / SET column / ON DUPLICATE KEY UPDATE column of an INSERT into
       a global table (`removeInsertColumnQualifiers`: the qualifiers are removed;
       before the `fix:` commit 116abc1 the name was left as written) -/
   | insColumn
   /-- the select field appended for a GROUP BY / ORDER BY column
-      (`createSelectFieldFromByItem` keeps the undecorated `columnExpr` for it) -/
+      (`createSelectFieldFromByItem`: the decorator of the item itself; before
+      the `fix:` commit 646f58e the undecorated `columnExpr`) -/
   | byAppended
+  /-- column below an aggregate function that is a GROUP BY / ORDER BY item of a
+      SELECT (`createSelectFieldFromByItem`: `rewriteColumnNamesInExpr`; used as
+      written before the `fix:` commit 983b024) -/
+  | byExpr
+  /-- the same column in the select field appended for that item (the field is
+      the item's expression) -/
+  | byExprAppended
+  /-- column in a value of an INSERT into a global table (VALUES rows, SET and
+      ON DUPLICATE KEY UPDATE values; `removeInsertColumnQualifiers`: the
+      qualifiers are removed; left as written before the `fix:` commit 25a2427) -/
+  | insValue
   deriving DecidableEq, Repr
 
 structure Name where
@@ -96,6 +139,8 @@ structure Stmt where
 structure Env where
   /-- `router.ValidDBInRules` -/
   validDBs : List String
+  /-- `StmtInfo.db`: the session's current database ("" if none) -/
+  sess : String
   /-- `globalTableRules` / `tableAlias`: name, alias and rule of every table reference -/
   tables : List (String × String × Rule)
   deriving Repr
@@ -119,10 +164,13 @@ inductive Lookup where
   | error
   deriving Repr
 
-/-- `GetSettedRuleFromColumnInfo` for a statement whose tables are all global -/
+/-- `GetSettedRuleFromColumnInfo` for a statement whose tables are all global
+    (`checkAndGetDB`: a schema qualifier must be a database of the router; without
+    one a session database must be selected) -/
 def resolve (env : Env) (n : Name) : Lookup :=
   if n.schema = "" ∧ n.table = "" then .plain
   else if n.schema ≠ "" ∧ ¬ env.validDBs.contains n.schema then .error
+  else if n.schema = "" ∧ env.sess = "" then .error
   else
     match lookupTable env.tables n.table with
     | some r => .rule r
@@ -132,50 +180,63 @@ def resolve (env : Env) (n : Name) : Lookup :=
 def plainChain (n : Name) : Chain :=
   (if n.schema = "" then [] else [n.schema]) ++ (if n.table = "" then [] else [n.table]) ++ [n.name]
 
+/-- positions the planner left as written, without looking the name up, before
+    the `fix:` commits 81799b0 (wildcard field), 98a59c2 (nested condition column),
+    5e2a917 (SET value), 646f58e (appended field), 5569888 (other binary
+    operators), 159d8de (IN), 4d9baa7 (BETWEEN), 983b024 (aggregate by-item) -/
+def pinnedUntouched : Pos → Bool
+  | .selWildcard | .condNested | .setValue | .byAppended | .condBinopNested | .condInItem | .condInNested
+  | .condBetweenBound | .condBetweenNested | .byExpr | .byExprAppended => true
+  | _ => false
+
 /-- What `Restore` prints for one name when the statement is rendered for table
     index `i`.  `fail` = the planner returned an error when it met the name,
-    `panic` = it panicked. -/
+    `panic` = it panicked.
+    `pinned`: the planner before the `fix:` commits 116abc1 (insert columns),
+    25a2427 (insert values), 706cba5 (condition root column) and those of
+    `pinnedUntouched`: those positions were printed as written. -/
 def restoreName (pinned : Bool) (env : Env) (n : Name) (i : Int) : R (List Chain) :=
   match n.pos with
   | .tableRef =>
     match lookupTable env.tables n.table with
     | some r => restoreTableName r n.schema n.table n.alias i
     | none => .fail
-  | .selWildcard => .ok [plainChain n]
-  | .condNested => .ok [plainChain n]
-  | .setValue => .ok [plainChain n]
-  | .insColumn => if pinned then .ok [plainChain n] else .ok [[n.name]]
-  | .byAppended => .ok [plainChain n]
+  | .insColumn | .insValue => if pinned then .ok [plainChain n] else .ok [[n.name]]
   | .setColumn =>
     match resolve env n with
     | .error => .fail
     | _ => .ok [[n.name]]
-  | _ =>   -- selField, condOperand, condOther, byItem
-    match resolve env n with
-    | .plain => .ok [plainChain n]
-    | .rule r => (restoreColumnName r n.schema n.table n.name false i).bind fun c => .ok [c]
-    | .error => .fail
+  | p =>   -- every other position holds a column (or wildcard) that is looked up and decorated
+    if pinned ∧ (pinnedUntouched p ∨ p = .condRoot) then .ok [plainChain n]
+    else
+      match resolve env n with
+      | .plain => .ok [plainChain n]
+      | .rule r => (restoreColumnName r n.schema n.table n.name false i).bind fun c => .ok [c]
+      | .error => .fail
 
-/-- the planning pass over one name: does looking it up fail, and how -/
-def checkName (env : Env) (n : Name) : R Unit :=
+/-- the planning pass over one name: does looking it up fail, and how.
+    (`byAppended` / `byExprAppended` names are not in the planner's order: the
+    appended field is the expression of its by-item.) -/
+def checkName (pinned : Bool) (env : Env) (n : Name) : R Unit :=
   match n.pos with
-  | .selField | .condOperand | .byItem | .setColumn =>
+  | .tableRef | .insColumn | .insValue | .byAppended | .byExprAppended => .ok ()
+  | .condOther | .condRoot =>
+    match resolve env n with
+    | .error => if pinned then .panic else .fail
+    | _ => .ok ()
+  | p =>
+    if pinned ∧ pinnedUntouched p then .ok () else
     match resolve env n with
     | .error => .fail
     | _ => .ok ()
-  | .condOther =>
-    match resolve env n with
-    | .error => .panic
-    | _ => .ok ()
-  | _ => .ok ()
 
 /-- the planning pass: the first name (in the planner's order) that cannot be
     looked up decides between error and panic -/
-def checkNames (env : Env) : List Name → R Unit
+def checkNames (pinned : Bool) (env : Env) : List Name → R Unit
   | [] => .ok ()
   | n :: ns =>
-    match checkName env n with
-    | .ok () => checkNames env ns
+    match checkName pinned env n with
+    | .ok () => checkNames pinned env ns
     | .fail => .fail
     | .panic => .panic
 
@@ -186,12 +247,14 @@ def hasPlainField (fields : List Name) (c : String) : Bool :=
   fields.any fun f => f.pos == .selField && f.whole && f.schema == "" && f.table == "" && f.name == c
 
 /-- `handleGroupBy` / `handleOrderBy` + `handleExtraFieldList`: the fields
-    appended to the select list, printed as written (`createSelectFieldFromByItem`
-    keeps the undecorated `columnExpr` for the field) -/
+    appended to the select list (`createSelectFieldFromByItem`: the field shares
+    the decorator / the expression of the item; `handleExtraFieldList` looks
+    through the decorator and drops a column the select list already has; an
+    aggregate function is never dropped) -/
 def appendedFields (s : Stmt) : List Name :=
   if s.kind = .select then
-    (s.tail.filter fun n => n.pos == .byItem && !hasPlainField s.fields n.name).map
-      fun n => { n with pos := .byAppended }
+    (s.tail.filter fun n => (n.pos == .byItem && !hasPlainField s.fields n.name) || n.pos == .byExpr).map
+      fun n => { n with pos := if n.pos == .byItem then .byAppended else .byExprAppended }
   else []
 
 /-- the names in text order, appended fields included -/
@@ -211,8 +274,8 @@ def restoreAll (pinned : Bool) (env : Env) : List Name → Int → R (List Chain
 
 /-- the table references of the statement with their rules (`rules[k]` is the
     rule of the k-th table reference) -/
-def mkEnv (validDBs : List String) (rules : List Rule) (s : Stmt) : Env :=
-  { validDBs := validDBs,
+def mkEnv (validDBs : List String) (sess : String) (rules : List Rule) (s : Stmt) : Env :=
+  { validDBs := validDBs, sess := sess,
     tables := ((s.«from».filter fun n => n.pos == .tableRef).zip rules).map fun (n, r) => (n.table, n.alias, r) }
 
 /-- `postHandleGlobalTableRouteResultInQuery` (a SELECT goes to the table index
@@ -229,14 +292,15 @@ def globalRouteIndexes (kind : StmtKind) (r : Rule) (pick : Nat) : R (List Int) 
 def planOrder (s : Stmt) : List Name := s.«from» ++ s.fields ++ s.tail
 
 /-- Planning of a statement over global tables only.
-    `pinned`: the planner before the `fix:` commit 116abc1;
+    `pinned`: the planner before the `fix:` commits listed at `restoreName`;
+    `sess`: the session's current database;
     `first`: which of the statement's global tables the `for … range
     p.globalTableRules { …; break }` loop happens to pick; `pick`: the value of
     `rand.Intn(tableLen)`. -/
-def planGlobal (pinned : Bool) (validDBs : List String) (rules : List Rule) (s : Stmt) (first pick : Nat) :
-    R (List (Target (List Chain))) :=
-  let env := mkEnv validDBs rules s
-  match checkNames env (planOrder s) with
+def planGlobal (pinned : Bool) (validDBs : List String) (sess : String) (rules : List Rule) (s : Stmt)
+    (first pick : Nat) : R (List (Target (List Chain))) :=
+  let env := mkEnv validDBs sess rules s
+  match checkNames pinned env (planOrder s) with
   | .fail => .fail
   | .panic => .panic
   | .ok () =>
